@@ -213,25 +213,31 @@ Definition available : str := join (bs ", "%bs) submat_names.
 Definition fnf_message (name : str) : str :=
   bs "No file at "%bs ++ name ++ bs ", available matrices: "%bs ++ available.
 
-Inductive resolution := RFile (raw : str) | RMissing.
-(* isfile(fname) is false (fname is not the path of a regular file): fname.upper() is looked up among _submat_files();
-   a hit is opened from the bundled directory, anything else (README entries, '', '.', paths) is a missing name *)
-Definition resolve (name : str) : resolution :=
-  match dict_get (upper name) submat_files with
-  | Some raw => RFile raw
-  | None => RMissing
-  end.
+Inductive resolution := RPath | RFile (raw : str) | RMissing.
+(* __init__.py:77-82, in this order: if isfile(fname) the argument itself is opened (a user's file wins, whatever its name
+   spells); otherwise fname.upper() is looked up among _submat_files(): a hit is opened from the bundled directory,
+   anything else (README entries, '', '.', paths) is a missing name *)
+Definition resolve (isfile : bool) (name : str) : resolution :=
+  if isfile then RPath
+  else match dict_get (upper name) submat_files with
+       | Some raw => RFile raw
+       | None => RMissing
+       end.
 
-(* submat(name) for a name that is not the path of a regular file: the whole function *)
 Inductive outcome := OMatrix (m : matrix) | OValueError | OFileNotFound (msg : str).
-Definition submat_name (name : str) : outcome :=
-  match resolve name with
-  | RFile raw => match parse raw with Some m => OMatrix m | None => OValueError end
+Definition parsed (raw : str) : outcome :=
+  match parse raw with Some m => OMatrix m | None => OValueError end.
+(* the whole function: fs = Some content when the argument is the path of a regular file with that (decoded) content *)
+Definition submat_call (name : str) (fs : option str) : outcome :=
+  match resolve (match fs with Some _ => true | None => false end) name with
+  | RPath => match fs with Some content => parsed content | None => OValueError (* unreachable *) end
+  | RFile raw => parsed raw
   | RMissing => OFileNotFound (fnf_message name)
   end.
+(* submat(name) for a name that is not the path of a regular file *)
+Definition submat_name (name : str) : outcome := submat_call name None.
 (* submat(path) for an existing file with this content *)
-Definition submat_file (content : str) : outcome :=
-  match parse content with Some m => OMatrix m | None => OValueError end.
+Definition submat_file (content : str) : outcome := parsed content.
 
 (* ---------------------------------------------------------------- specification side *)
 Definition content_lines (raw : str) : list str :=
@@ -382,7 +388,7 @@ Definition wf_name (name : str) : bool :=
   && negb (existsb (byte_eqb "/"%byte) name && has_dotdot name).
 Definition wf_C20 (op : N) (name content : str) : bool :=
   match op with
-  | 0%N => wf_name name && match resolve name with RFile raw => wf_content raw | _ => true end
+  | 0%N => wf_name name && match resolve false name with RFile raw => wf_content raw | _ => true end
   | _ => wf_content content
   end.
 
@@ -409,9 +415,9 @@ Definition run_C20 (op : N) (name content : str) : val :=
   VL [VB (wf_C20 op name content);
       match op with
       | 0%N =>
-          match resolve name with
+          match resolve false name with
           | RFile raw => VL [VS (bs "file"%bs); VI (Z.of_nat (length raw)); VI (Z.of_N (cksum raw)); outcome_val (submat_name name)]
-          | RMissing => outcome_val (submat_name name)
+          | _ => outcome_val (submat_name name)
           end
       | _ => outcome_val (submat_file content)
       end].
@@ -433,3 +439,8 @@ Definition run_C20w (e : eol) (final : bool) (f : list aline) : val :=
   let raw := render_with e final f in
   VL [VB (wf_content raw);
       VL [VB (afile_ok f); VI (Z.of_nat (length raw)); VI (Z.of_N (cksum raw)); parsed_val raw]].
+
+(* op 4: submat(name) while a regular file with this content exists under exactly that relative name in the working
+   directory (the name may spell a bundled matrix): the whole function with its file-system input *)
+Definition run_C20c (name content : str) : val :=
+  VL [VB (all_ascii name && wf_content content); outcome_val (submat_call name (Some content))].
